@@ -267,9 +267,16 @@ fn scan_case(t: &mut Tally, case: &Case, label: &str) {
     let mut pats = key_patterns(&secret, &date, &case.cfg.region, &case.cfg.service);
     let refused = !rec.outcome.is_ok();
     let mut sig_pat: Option<Vec<u8>> = None;
+    // when the client presented the correct digits in another letter case, windows of what it presented overlap the
+    // correct signature: then only a verbatim occurrence of the full lower-case signature (which it did not send) counts
+    let mut full_only: Option<Vec<u8>> = None;
     if refused {
         if let Some(sig) = &j.analysis.expected_sig {
-            if j.analysis.presented_sig.as_deref() != Some(sig.as_str()) {
+            let presented = j.analysis.presented_sig.clone().unwrap_or_default();
+            if presented != *sig && presented.eq_ignore_ascii_case(sig) {
+                full_only = Some(sig.clone().into_bytes());
+                t.count("case_variant_of_correct_signature_refused");
+            } else if presented != *sig {
                 pats.push(("correct signature of a refused request".into(), sig.clone().into_bytes()));
                 pats.push(("correct signature of a refused request (upper case)".into(), sig.to_uppercase().into_bytes()));
                 sig_pat = Some(sig.clone().into_bytes());
@@ -310,6 +317,18 @@ fn scan_case(t: &mut Tally, case: &Case, label: &str) {
         t.count("control_scanner_saw_signature_in_trace_record");
     }
     for (name, h) in &hay {
+        if let Some(full) = &full_only {
+            if h.windows(full.len()).any(|w| w == &full[..]) {
+                t.violate(violation(
+                    "leak",
+                    &format!("signature-case|{}", name.split(' ').next().unwrap_or("")),
+                    format!("the correct lower-case signature, which the client did not send (it sent another letter case), appears in {} ({}): …{}…", name, label, crate::run::truncate(&String::from_utf8_lossy(h), 300)),
+                    case,
+                    None,
+                ));
+                return;
+            }
+        }
         t.count("renderings_scanned");
         if let Some(p) = taint.scan(h) {
             t.violate(violation(
